@@ -378,6 +378,9 @@ INVARIANT Export
     ctx.extra['public_set_design_var_rejected'] = stats.get('pub_rejected', 0)
     if tl is not None:
         ctx.extra['tlaps'] = tlaps_outcome(ctx, tl)
+    import collections
+    import re
+    ctx.extra['violation_classes'] = dict(collections.Counter(re.sub(r'-?\d+(\.\d+)?', 'N', cl)[:90] for cl, _ in ctx.violations))
     ctx.rule = ('every scenario exported by DriverScaling.tla (Stride=%d): design-variable declaration x constraint '
                 'declaration from {none, scaler in {1/2,-1/2,2,-2,3} x adder in {-1,0,2}, six ref/ref0 pairs incl. '
                 'ref<ref0 and one-sided} x unit maps {none, km->m, degC->degK, degF->degC}, scalar and 2-element arrays '
